@@ -251,6 +251,7 @@ func TestSim(t *testing.T) {
 			// inside a step, which the simulator does not control)
 			confirm := runOnce(t, prop, tier, seed, res.rec)
 			if confirm.Class != res.Class {
+				fmt.Fprintf(os.Stderr, "UNCONFIRMED seed=%d class=%s msg=%s | on replay: class=%q msg=%s\n", seed, res.Class, clipStr(res.Msg, 300), confirm.Class, clipStr(confirm.Msg, 200))
 				wo.Unconfirmed++
 				wo.Stats["harness.unconfirmed_violations"]++
 				continue
